@@ -130,6 +130,21 @@ PROPS = {
   'trusted_base': ['hand models in coq/Model/{Filter,Adam7,Pipeline}.v tied by differential execution', 'reference PNG writer harness/src/pngbuild.rs + c01.rs'],
   'assumptions': ['default (identity) transformation', 'fdeflate decodes every RFC 1951 stream as the reference does (tested on every generated stream)'],
  },
+ 'C04': {
+  'level_text': 'Coq theorems (closed under the global context; PARTIAL with respect to the full statement, which is kept visible in Props/C04.v): in every state of the stream-machine model and for every '
+                'inflater, a 4-byte field cut after 1-3 bytes is accumulated silently and parsed by the same parse_u32 call as when it arrives whole; a chunk body delivered as p then q leaves exactly the '
+                'state p++q leaves; zero-byte transitions ignore the buffer. The composition over whole streams (and the image-data state, which needs the inflater\'s prefix-monotonicity) is decided on '
+                'every run by the metamorphic check on the implementation (whole vs byte-by-byte vs every single cut point vs random schedules, at StreamingDecoder and Reader level) and model traces.',
+  'level_note': 'Trusted: Coq kernel; hand model of stream.rs tied by differential execution. The trace-level theorem feed(p1) = feed(p2) is NOT proved (stated in Props/C04.v); its composition step is measured, '
+                'not proved. fdeflate streaming behaviour by contract.',
+  'gen_items': ['CHUNK_BUFFER_SIZE', 'signature', 'chunk.consts'],
+  'model_name': 'Model/Stream.v next_state (field accumulation, body buffering) / StreamRun.v feed',
+  'rule': 'cases = generated valid files with ancillary chunks, structural and byte mutations, corpus files; each under whole / 1..13-byte pieces / every single cut point (files <= 700 B; 4096 B thorough) / '
+          'random multi-cut schedules, through StreamingDecoder::update (observation: events without Nothing/PartialChunk/ImageData markers, flushed image data hash, end state, Info dump) and through the '
+          'Reader over a piecewise BufRead (frames, errors, finish, Info); model-vs-implementation traces for small files. distinct = (kind, length class, observation class).',
+  'trusted_base': ['hand model of src/decoder/stream.rs in coq/Model/Stream.v, tied by differential execution'],
+  'assumptions': ['the amount of partial image data handed out before a failure is not compared (as the property allows)'],
+ },
 }
 
 NOT_APPLICABLE = {}
